@@ -489,6 +489,10 @@ func handleSUNION(params internal.HandlerFuncParams) ([]byte, error) {
 
 	values := params.GetValues(params.Context, keys.ReadKeys)
 	for key, value := range values {
+		if value == nil {
+			// A key that does not exist is an empty set.
+			continue
+		}
 		set, ok := value.(*Set)
 		if !ok {
 			return nil, fmt.Errorf("value at key %s is not a set", key)
@@ -513,6 +517,10 @@ func handleSUNIONSTORE(params internal.HandlerFuncParams) ([]byte, error) {
 
 	values := params.GetValues(params.Context, keys.ReadKeys)
 	for key, value := range values {
+		if value == nil {
+			// A key that does not exist is an empty set.
+			continue
+		}
 		set, ok := value.(*Set)
 		if !ok {
 			return nil, fmt.Errorf("value at key %s is not a set", key)
